@@ -13,7 +13,7 @@ for sid in ids:
         subprocess.run(['git', 'clone', '-q', '/repo', repo], check=True); shutil.copy('/repo/Cargo.lock', os.path.join(repo, 'Cargo.lock'))
         if subprocess.run(['git', '-C', repo, 'apply', os.path.join(d, 'patch.diff')]).returncode != 0: print(sid, 'PATCH DOES NOT APPLY', flush=True); continue
         env = dict(os.environ); env['VERIF_REPO'] = repo; env['VERIF_OUT'] = os.path.join(scratch, 'out')
-        names = subprocess.run(['python3-vt', '-c', "import sys; sys.path.insert(0,'/verif'); from mirsmt import catalog; print(' '.join(t.name for t in catalog.QUICK if not t.model))"], stdout=subprocess.PIPE, cwd=V).stdout.decode().split()
+        names = subprocess.run(['python3-vt', '-c', "import sys; sys.path.insert(0,'/verif'); from mirsmt import catalog; print(' '.join(t.name for t in catalog.QUICK if not t.model) + ' ' + ' '.join(t.name for t in catalog.MODEL))"], stdout=subprocess.PIPE, cwd=V).stdout.decode().split()
         if own == 'C07': names = []
         out = subprocess.run(['python3-vt', os.path.join(V, 'tools', 'native_probe.py')] + names, env=env, stdout=subprocess.PIPE, stderr=subprocess.STDOUT, cwd=V).stdout.decode(errors='replace') if names else ''
         hits = collections.OrderedDict()
